@@ -23,7 +23,7 @@ RULE = ("unit level: random InfrastructureInfo (1-6 stations, 0-6 three-phase mi
         "continuous / finite-rate EVSEs, unequal voltages) x random active sessions with session_id != station_id "
         "(plenty left / between levels / nearly finished / finished) x 5 sort orders x {greedy, round robin} x "
         "{estimator on/off with random SimpleRampdown state} x {uninterrupted on/off} x increments {0.1,0.5,1}, cycling "
-        "through all 80 option combinations; the REAL algorithm runs through the repo's TestingInterface and its schedule, "
+        "through all 80 option combinations, plus (every third greedy case) a targeted family where the head-room of a finite-rate EVSE under a binding monotone constraint is delta A below one of its levels, delta in {1e-4 .. 3e-2, -1e-3}; the REAL algorithm runs through the repo's TestingInterface and its schedule, "
         "exception, preprocessed sessions, processing order and estimator store are compared with the model. "
         "in-simulator: the same algorithms inside the real Simulator on generated histories; every scheduler invocation is "
         "captured as a unit case (states reached during simulations) and the run is monitored for infeasible-schedule "
@@ -77,6 +77,10 @@ def gen_cases(rng, n, tier):
     it = itertools.cycle(combos)
     while len(cases) < n:
         a, s, e, u, i = next(it)
+        if a == "greedy" and len(cases) % 3 == 0:
+            # head-room of a finite-rate EVSE a few mA below one of its levels (39.995 A breaker ...)
+            cases.append(mk_case(sc.gen_level_edge(rng, tier, sort=s, unint=u), "edge"))
+            continue
         scn = sc.gen_scenario(rng, tier, algo=a, sort=s, est=e, unint=u, inc=i,
                               user_bounds=rng.random() < 0.35)
         cases.append(mk_case(scn))
@@ -114,7 +118,10 @@ def search(rng, budget_s, broken):
     t0 = time.time()
     while time.time() - t0 < budget_s:
         a, s, e, u, i = rng.choice(COMBOS)
-        scn = sc.gen_scenario(rng, "quick", algo=a, sort=s, est=e, unint=u, inc=i, user_bounds=False)
+        if rng.random() < 0.5:
+            scn = sc.gen_level_edge(rng, "quick", sort=s, unint=u)
+        else:
+            scn = sc.gen_scenario(rng, "quick", algo=a, sort=s, est=e, unint=u, inc=i, user_bounds=False)
         impl = sc.run_impl(scn)
         r = sm.monitor_c07(scn, impl)
         if r and not sc.Twin(scn).run()["amb"]:
